@@ -115,6 +115,7 @@ package randomness
 //@   modifies nothing
 //@   pure
 //@   ensures r1 == r0 && 0.0 <= r0 && r0 <= 1.0
+//@   ensures r0 == igamcR(real(pow2(m) - 1) / 2.0, (real(pow2(m)) / real(len(bits) / m) * sqsumh(bits, m, len(bits) / m, pow2(m)) - real(len(bits) / m)) / 2.0)
 //@   loop 1
 //@     invariant 0 <= i && i <= N
 //@     invariant forall v int :: 0 <= v && v < _2m ==> patterns[v] == cntpat(bits, m, v, i)
